@@ -618,3 +618,41 @@ def run_C16(ctx):
 
 
 RUNNERS["C16"] = run_C16
+
+
+# ------------------------------------------------------------------ C17 (types and forms)
+TF_PARAMS_Q = '{<<>>, << <<"a", "1">> >>, << <<"__categorical__", "true">> >>}'
+TF_PARAMS_T = ('{<<>>, << <<"a", "1">> >>, << <<"__categorical__", "true">> >>, << <<"a", "[1, 2]">>, <<"b", "\\"x\\"">> >>, '
+               '<< <<"__categorical__", "true">>, <<"a", "{\\"k\\": null}">> >>, << <<"a", "1.5">> >>}')
+
+
+def run_C17(ctx):
+    ctx.build_l2()
+    q = ctx.quick()
+    consts = dict(MaxDepth="1" if q else "2", ParamSets=TF_PARAMS_Q if q else TF_PARAMS_T,
+                  TypeStrsSet='{"", "mytype"}', RecNames='{"", "Point", "int"}', Dtypes='{"int64"}' if q else '{"int64", "bool", "float32"}',
+                  EmitOn="TRUE")
+    ctx.l2_phase("type-printer-parser", "TypesForms", consts, ("l2replay", "h_c17_types"), invariants=["PrintsSomething"],
+                 init="TFInit", next_="TFNext", view="TFView", action_constraints=["TFEmit"],
+                 require_actions=["Leaf", "WrapList", "WrapReg", "WrapOpt", "WrapUnion", "WrapRec"],
+                 sample_cases=(20000 if q else 400000), timeout=1500)
+    # layouts: type = type of form; form survives JSON; depth / keys / regularity queries; range slices; elements
+    consts = session_consts(OpSet='{"typeform"}', LeafSet=MIXED_LEAVES, MaxDepth="2", MaxLen="2", Classes=ALL_CLASSES)
+    ctx.tlc_phase("layouts-type-form-queries", "Session", consts, invariants=["Closed"], translate=("typeform", "steps_typeform"),
+                  judge_fn=("typeform", "judge_typeform"), require_actions=["TypeFormOp", "WrapRegular", "WrapListOffset", "WrapBitMasked"],
+                  sample_cases=(150000 if q else None), timeout=1500)
+    consts = session_consts(OpSet='{"typeform","aux"}', LeafSet=leafset(2), MaxDepth="2", MaxLen="2", MaxNodes="4",
+                            Classes='{"ListOffset","IndexedOption","Record","Union","Regular"}')
+    ctx.tlc_phase("records-unions-type-form-queries", "Session", consts, invariants=["Closed"], constraint="SmallEnough",
+                  translate=("typeform", "steps_typeform"), judge_fn=("typeform", "judge_typeform"),
+                  require_actions=["TypeFormOp", "WrapRecord", "WrapUnion"], sample_cases=(100000 if q else None), timeout=1500)
+    consts = session_consts(OpSet='{"typeform"}', LeafSet=STR_LEAVES, MaxDepth="1", MaxLen="2",
+                            Classes='{"ListOffset","List","IndexedOption","Indexed","Regular"}')
+    ctx.tlc_phase("strings-type-form-queries", "Session", consts, invariants=["Closed"], translate=("typeform", "steps_typeform"),
+                  judge_fn=("typeform", "judge_typeform"), require_actions=["TypeFormOp"], timeout=600)
+    return ctx.finish(rule="case = one type tree (node grammar x parameters x record names x categorical x custom typestr); printed by the C++ "
+                           "Type::tostring (compared with TypesForms!TStr), parsed by ak.types.from_datashape, printed again and compared with Type::equal",
+                      assumptions=[L2_TRUSTED, "custom typestrs are free text: only their printing is checked, not re-parsing"])
+
+
+RUNNERS["C17"] = run_C17
